@@ -1,11 +1,451 @@
 import KG.Model.RemoteLimiter
 import KG.Spec.RemoteLimiter
-namespace KG.Props.C09
-open KG.Model.RemoteLimiter KG.Spec.RemoteLimiter
+import KG.Lemmas.RemoteLimiter
+/-!
+# C09 — Gateway never exceeds the global limit; falls back to the local limit on failure
 
-/-- the closure `bound` of `boundByGlobalLimit` lands in `[0, global]` whatever was answered -/
-theorem bound_range (v g : Int) (hg : 0 ≤ g) : 0 ≤ bound v g ∧ bound v g ≤ g := by
-  simp only [bound]
-  constructor <;> (split <;> split <;> omega)
+All theorems are about `KG.Model.RemoteLimiter` (the executable model the harness compares with the real
+`upstreamLimiter`, wrappers and `clientSets`) and the judge `KG.Spec.RemoteLimiter` (the same function the harness
+applies to the implementation's observations).
+
+Quantification: every operation list `ops` whose schema syncs carry schemas accepted by validation
+(`validSchema`: one type, `0 ≤ local ≤ global ≤ 2^31-1`) of one type `K`, and whose meter readings have a positive
+denominator. EVERYTHING else is arbitrary: any number and order of reconcile halves, answered items of any type,
+strategy and value (any `Int`, so in particular every int32), acquire results with any accept flag, limit, error
+kind, request time (stale, zero, negative, reordered) and request tokens, heartbeats at arbitrary times, shard-count
+changes, limit and strategy changes of the schema — and missing replies (absent operations).
+-/
+namespace KG.Props.C09
+open KG.Model.RemoteLimiter KG.Spec.RemoteLimiter KG.Lemmas.RemoteLimiter KG.Gen.C09
+
+/-- the operation lists the theorems quantify over -/
+def Allowed (K : Kind) (ops : List Op) : Prop :=
+  ∀ op ∈ ops, match op with
+    | .schema s => validSchema s = true ∧ guessType s = K
+    | .meter x => 0 < x.rateDen
+    | _ => True
+
+theorem zero_le_max : (0 : Int) ≤ maxInt32 := by decide
+
+theorem allowed_ok {K : Kind} {ops : List Op} (h : Allowed K ops) : ∀ op ∈ ops, OpOK K op := by
+  intro op hop
+  have := h op hop
+  cases op with
+  | schema s => simp only at this; rw [← this.2]; exact VS_of_valid this.1
+  | meter x => exact this
+  | shards _ => trivial
+  | hb _ _ _ => trivial
+  | reconcileCount => trivial
+  | answer _ _ => trivial
+  | setLimit _ => trivial
+
+/-! ## 1. the whole judge, for every allowed operation list -/
+
+/-- **Main theorem.** Whatever is answered, in whatever order: the model never panics, and the judge — every clause
+    of the property: capacity within the configured global limit, type, fallback choice, local limit, readiness
+    hysteresis, error fallback, recovery, stale replies ignored, granted quota applied — accepts the observation
+    made after every single operation. -/
+theorem c09_judge (K : Kind) (cfg : Cfg) (ops : List Op) (h : Allowed K ops) :
+    (run cfg ops).2 = none ∧ (run cfg ops).1.length = ops.length ∧
+      allGood (judgeAll cfg ops (run cfg ops).1) = true :=
+  run_inv ops {} {} (inv_init K cfg) (allowed_ok h)
+
+/-! ## 2. capacity: never above the configured global limit -/
+
+/-- every remote limiter ever observed (handed to requests or not) has the schema's type and is within any bound
+    `G` that dominates the global limits of all schemas synced so far -/
+theorem c09_cap (K : Kind) (cfg : Cfg) (G : Bound) (ops : List Op) (h : Allowed K ops)
+    (hG : ∀ s, Op.schema s ∈ ops → BLe (globalOf s) G) (h0 : BLe {} G) :
+    ∀ o ∈ (run cfg ops).1, ∀ l, o.rlim = some l → Lim.leb l G = true ∧ l.kind = K := by
+  apply run_cap ops {} {} (inv_init K cfg) ⟨h0, h0, fun s hs => by cases hs⟩
+  intro op hop
+  exact ⟨allowed_ok h op hop, fun s hs => hG s (hs ▸ hop)⟩
+
+/-- **max-in-flight**: with global max-in-flight limits of at most `g`, the remote limiter's size is always in
+    `[0, g]` — for one schema configuration `g` is its `globalMaxRequestsInflight.max` -/
+theorem c09_cap_max_inflight (cfg : Cfg) (g : Int) (ops : List Op) (h : Allowed .mi ops)
+    (hg : ∀ s, Op.schema s ∈ ops → ∀ x, s.gmi = some x → x ≤ g) (h0 : 0 ≤ g) :
+    ∀ o ∈ (run cfg ops).1, ∀ l, o.rlim = some l → ∃ size, l = .mi size ∧ 0 ≤ size ∧ size ≤ g := by
+  intro o ho l hl
+  have hG : ∀ s, Op.schema s ∈ ops → BLe (globalOf s) ⟨g, maxInt32, maxInt32⟩ := by
+    intro s hs
+    have hv := h _ hs
+    simp only at hv
+    have hvs := VS_of_valid hv.1
+    rw [hv.2] at hvs
+    cases hvs with
+    | mi st l0 g0 a0 a1 a2 =>
+      have := hg _ hs g0 rfl
+      exact ⟨by simpa [globalOf, Schema.globalMax] using this, Int.le_refl _, Int.le_refl _⟩
+  have h00 : BLe {} ⟨g, maxInt32, maxInt32⟩ := ⟨h0, zero_le_max, zero_le_max⟩
+  obtain ⟨a, b⟩ := c09_cap .mi cfg _ ops h hG h00 o ho l hl
+  cases l with
+  | mi size =>
+    simp only [Lim.leb, Bool.and_eq_true, decide_eq_true_eq] at a
+    exact ⟨size, rfl, a.1, a.2⟩
+  | exempt _ => simp [Lim.kind] at b
+  | tb _ _ => simp [Lim.kind] at b
+
+/-- **token bucket**: with global buckets of at most `(gq, gb)`, the remote bucket always has
+    `0 ≤ qps ≤ gq` and `0 ≤ burst ≤ gb` -/
+theorem c09_cap_token_bucket (cfg : Cfg) (gq gb : Int) (ops : List Op) (h : Allowed .tb ops)
+    (hg : ∀ s, Op.schema s ∈ ops → ∀ x, s.gtb = some x → x.qps ≤ gq ∧ x.burst ≤ gb) (h0 : 0 ≤ gq) (h1 : 0 ≤ gb) :
+    ∀ o ∈ (run cfg ops).1, ∀ l, o.rlim = some l →
+      ∃ q u, l = .tb q u ∧ 0 ≤ q ∧ q ≤ gq ∧ 0 ≤ u ∧ u ≤ gb := by
+  intro o ho l hl
+  have hG : ∀ s, Op.schema s ∈ ops → BLe (globalOf s) ⟨maxInt32, gq, gb⟩ := by
+    intro s hs
+    have hv := h _ hs
+    simp only at hv
+    have hvs := VS_of_valid hv.1
+    rw [hv.2] at hvs
+    cases hvs with
+    | tb st q b gq0 gb0 a0 a1 a2 a3 a4 a5 =>
+      have := hg _ hs ⟨gq0, gb0⟩ rfl
+      exact ⟨Int.le_refl _, by simpa [globalOf, Schema.globalQps] using this.1,
+        by simpa [globalOf, Schema.globalBurst] using this.2⟩
+  have h00 : BLe {} ⟨maxInt32, gq, gb⟩ := ⟨zero_le_max, h0, h1⟩
+  obtain ⟨a, b⟩ := c09_cap .tb cfg _ ops h hG h00 o ho l hl
+  cases l with
+  | tb q u =>
+    simp only [Lim.leb, Bool.and_eq_true, decide_eq_true_eq] at a
+    exact ⟨q, u, rfl, a.1.1.1, a.1.1.2, a.1.2, a.2⟩
+  | exempt _ => simp [Lim.kind] at b
+  | mi _ => simp [Lim.kind] at b
+
+/-- what is handed to a request is the default limiter (no schema yet), the local limiter, or that remote limiter -/
+theorem c09_handed (cfg : Cfg) (st : State) :
+    (observe cfg st).choice = load cfg st ∧
+    ((observe cfg st).choice = .remote → (observe cfg st).lim = (observe cfg st).rlim) ∧
+    ((observe cfg st).choice = .loc → (observe cfg st).lim = st.cache.bind (·.loc.fc)) := by
+  refine ⟨observe_choice cfg st, ?_, ?_⟩
+  · intro h
+    rw [observe_choice] at h
+    rw [observe_lim, observe_rlim, h]
+  · intro h
+    rw [observe_choice] at h
+    rw [observe_lim, h]
+
+/-! ## 3. fallback to the local limiter -/
+
+/-- `Load` hands out the remote limiter only if the rate limiter type is remote, the strategy is a global one, a
+    client set exists, the limiter server is ready and the remote limiter has been synced -/
+theorem c09_fallback_choice (cfg : Cfg) (st : State) (h : load cfg st = .remote) :
+    ∃ c, st.cache = some c ∧ cfg.rateLimiter = .remote ∧ c.loc.config.strategy ≠ .empty ∧
+      c.loc.config.strategy ≠ .loc ∧ cfg.hasCS = true ∧ isReady st = true ∧ c.remote.isSome = true := by
+  unfold load at h
+  cases hc : st.cache with
+  | none => simp [hc] at h
+  | some c =>
+    simp only [hc] at h
+    refine ⟨c, rfl, ?_⟩
+    cases hr : cfg.rateLimiter <;> simp only [hr] at h <;> try (cases h)
+    by_cases h1 : c.loc.config.strategy = .empty
+    · simp [h1] at h
+    by_cases h2 : c.loc.config.strategy = .loc
+    · simp [h2] at h
+    cases h3 : cfg.hasCS
+    · simp [h1, h2, h3] at h
+    cases h4 : isReady st
+    · simp [h1, h2, h3, h4] at h
+    cases h5 : c.remote.isSome
+    · simp [h1, h2, h3, h4, h5] at h
+    exact ⟨rfl, h1, h2, rfl, rfl, rfl⟩
+
+/-- … and otherwise (schema known) it hands out the local limiter, never none -/
+theorem c09_fallback_local (cfg : Cfg) (st : State) (c : Cache) (hc : st.cache = some c)
+    (h : cfg.rateLimiter ≠ .remote ∨ c.loc.config.strategy = .empty ∨ c.loc.config.strategy = .loc ∨
+         cfg.hasCS = false ∨ isReady st = false ∨ c.remote = none) :
+    load cfg st = .loc := by
+  unfold load
+  simp only [hc]
+  cases hr : cfg.rateLimiter with
+  | loc => rfl
+  | other => rfl
+  | remote =>
+    simp only []
+    rcases h with h | h | h | h | h | h
+    · exact (h hr).elim
+    · simp [h]
+    · simp [h]
+    · simp [h]
+    · simp [h]
+    · simp [h]
+
+/-- the limiter server is unknown (no shard count yet) or no heartbeat was ever answered: not ready -/
+theorem c09_unknown_server_not_ready (st : State) (h : st.shardCount = 0 ∨ st.hb = none) : isReady st = false := by
+  unfold isReady
+  rcases h with h | h
+  · simp [h]
+  · simp [h]
+
+/-- in every reachable state the local limiter enforces exactly the local limit of the schema in force -/
+theorem c09_local_limit (K : Kind) (cfg : Cfg) (ops : List Op) (h : Allowed K ops) (st : State)
+    (hst : exec {} ops = some st) (c : Cache) (hc : st.cache = some c) :
+    validSchema c.loc.config = true ∧ c.loc.fc = some (limOf c.loc.config) := by
+  have hG : ∀ op ∈ ops, OpOK K op ∧ ∀ s, op = .schema s → BLe (globalOf s) ⟨maxInt32, maxInt32, maxInt32⟩ := by
+    intro op hop
+    refine ⟨allowed_ok h op hop, fun s hs => ?_⟩
+    subst hs
+    have hv := h _ hop
+    simp only at hv
+    have hb := VS_globalOK (VS_of_valid hv.1)
+    exact ⟨hb.mi1, hb.q1, hb.b1⟩
+  obtain ⟨st', m', e1, e2, _⟩ := exec_inv (G := ⟨maxInt32, maxInt32, maxInt32⟩) ops {} {} (inv_init K cfg)
+    ⟨⟨by decide, by decide, by decide⟩, ⟨by decide, by decide, by decide⟩, fun s hs => by cases hs⟩ hG
+  rw [hst] at e1
+  have : st = st' := Option.some.inj e1
+  subst this
+  obtain ⟨a, b⟩ := inv_local e2 hc
+  exact ⟨(valid_of_VS a).1, b⟩
+
+/-! ## 4. the count strategy: error fallback, recovery, stale replies -/
+
+/-- shape of a max-in-flight count wrapper in every reachable state (`GInv`) -/
+structure MIWOK (w : MIW) : Prop where
+  r0 : 0 ≤ w.reserve
+  r1 : w.reserve ≤ w.max
+  m1 : w.max ≤ maxInt32
+  inner : ∃ sz, w.inner = .mi sz
+
+/-- a fresh error reply (any error but `RequestIDTooOld`, the time-out of `resetCheck` included) while the server was
+    considered available resizes to `min(max(observed, local), max)` — within `[0, max]` — and marks the outage -/
+theorem c09_error_fallback (w : MIW) (hw : MIWOK w) (loc : Schema) (l obs : Int) (hl : loc.mi = some l) (h0 : 0 ≤ l)
+    (r : Reply) (hfresh : ¬ (r.rt > 0 ∧ r.rt ≤ w.lastAcquireTime)) (herr : r.err = .other) (hu : w.unavail = false) :
+    ∃ w', w.setLimit loc obs r = .ok w' ∧ w'.unavail = true ∧ w'.inner = .mi (miFallback obs l w.max) ∧
+      0 ≤ miFallback obs l w.max ∧ miFallback obs l w.max ≤ w.max ∧ w'.max = w.max := by
+  obtain ⟨sz, hin⟩ := hw.inner
+  have hf := miFallback_range (obs := obs) h0 (by have := hw.r0; have := hw.r1; omega : 0 ≤ w.max)
+  refine ⟨{ w with inner := .mi (miFallback obs l w.max), unavail := true }, ?_, rfl, rfl, hf.1, hf.2, rfl⟩
+  unfold MIW.setLimit
+  rw [if_neg hfresh]
+  simp only [herr, hu, Bool.not_false, if_true, hl, hin, resize_mi]
+  have : (if (if obs < l then l else obs) > w.max then w.max else if obs < l then l else obs)
+      = miFallback obs l w.max := rfl
+  rw [this, toU32_id hf.1 (by have := hw.m1; omega)]
+
+/-- further errors during the outage, `RequestIDTooOld`, and replies whose request time is not newer than the last
+    applied one change nothing -/
+theorem c09_stale_ignored (w : MIW) (loc : Schema) (obs : Int) (r : Reply)
+    (h : (r.rt > 0 ∧ r.rt ≤ w.lastAcquireTime) ∨ r.err = .tooOld ∨ (r.err = .other ∧ w.unavail = true)) :
+    w.setLimit loc obs r = .ok w := by
+  unfold MIW.setLimit
+  by_cases hst : r.rt > 0 ∧ r.rt ≤ w.lastAcquireTime
+  · rw [if_pos hst]
+  · rw [if_neg hst]
+    rcases h with h | h | h
+    · exact (hst h).elim
+    · simp [h]
+    · simp [h.1, h.2]
+
+/-- **recovery**: the next fresh accepted reply ends the outage and sets the capacity to the clamp of the granted
+    limit to `[reserve, max]` -/
+theorem c09_recover (w : MIW) (hw : MIWOK w) (loc : Schema) (obs : Int) (r : Reply)
+    (hfresh : ¬ (r.rt > 0 ∧ r.rt ≤ w.lastAcquireTime)) (herr : r.err = .none) (ha : r.accept = true) :
+    ∃ w', w.setLimit loc obs r = .ok w' ∧ w'.unavail = false ∧
+      w'.inner = .mi (clampAccept r.limit w.reserve w.max) ∧
+      w.reserve ≤ clampAccept r.limit w.reserve w.max ∧ clampAccept r.limit w.reserve w.max ≤ w.max ∧
+      w'.lastAcquireTime = r.rt := by
+  obtain ⟨sz, hin⟩ := hw.inner
+  have hc := clampAccept_range (limit := r.limit) hw.r0 hw.r1
+  have hlow : w.reserve ≤ clampAccept r.limit w.reserve w.max := by
+    have := hw.r1
+    simp only [clampAccept]
+    by_cases h : r.limit < w.reserve
+    · simp only [h, if_true]; split <;> omega
+    · simp only [h, if_false]; split <;> omega
+  refine ⟨{ w with unavail := false, overLimited := 0, acquired := clampAccept r.limit w.reserve w.max,
+                   inner := .mi (clampAccept r.limit w.reserve w.max), lastAcquireTime := r.rt },
+    ?_, rfl, rfl, hlow, hc.2, rfl⟩
+  unfold MIW.setLimit
+  rw [if_neg hfresh]
+  simp only [herr, ha, if_true, hin, resize_mi]
+  have : (if (if r.limit < w.reserve then w.reserve else r.limit) > w.max then w.max
+      else if r.limit < w.reserve then w.reserve else r.limit) = clampAccept r.limit w.reserve w.max := rfl
+  rw [this, toU32_id hc.1 (by have := hw.m1; omega)]
+
+/-- `min(limit, max)` floored at 0: what a refused report applies -/
+def refusedLimit (limit wmax : Int) : Int :=
+  if (if limit > wmax then wmax else limit) < 0 then 0 else (if limit > wmax then wmax else limit)
+
+/-- a refused report: the limit is applied bounded to `[0, max]` -/
+theorem c09_refusal_bounded (w : MIW) (hw : MIWOK w) (loc : Schema) (obs : Int) (r : Reply)
+    (hfresh : ¬ (r.rt > 0 ∧ r.rt ≤ w.lastAcquireTime)) (herr : r.err = .none) (ha : r.accept = false) :
+    ∃ w', w.setLimit loc obs r = .ok w' ∧ w'.inner = .mi (refusedLimit r.limit w.max) ∧
+      0 ≤ refusedLimit r.limit w.max ∧ refusedLimit r.limit w.max ≤ w.max ∧ w'.unavail = w.unavail := by
+  obtain ⟨sz0, hin⟩ := hw.inner
+  have hn := nonAccept_range (limit := r.limit) (by have := hw.r0; have := hw.r1; omega : 0 ≤ w.max)
+  refine ⟨{ w with overLimited := 1, acquired := refusedLimit r.limit w.max, inner := .mi (refusedLimit r.limit w.max), lastAcquireTime := r.rt }, ?_, rfl, hn.1, hn.2, rfl⟩
+  unfold MIW.setLimit
+  rw [if_neg hfresh]
+  simp only [herr, ha, Bool.false_eq_true, if_false, hin, resize_mi]
+  have : (if (if r.limit > w.max then w.max else r.limit) < 0 then 0 else if r.limit > w.max then w.max else r.limit)
+      = refusedLimit r.limit w.max := rfl
+  rw [this] at hn ⊢
+  rw [toU32_id hn.1 (by have := hw.m1; omega)]
+
+/-- token bucket, recovery: an accepted reply during an outage restores the bucket `(m.qps, m.burst)` that was in
+    force before it -/
+theorem c09_recover_token_bucket (w : TBW) (loc : Schema) (mt : Meter) (r : Reply) (q u : Int)
+    (hin : w.inner = .tb q u) (herr : r.err = .none) (ha : r.accept = true) (hu : w.unavail = true) :
+    ∃ w' b, w.setLimit loc mt r = .ok (w', b) ∧ w'.unavail = false ∧ w'.inner = .tb w.qps w.burst := by
+  have h : w.setLimit loc mt r = .ok ({ (w.noteRequest r).recover.addTokens r.limit with lastAcquireTime := r.rt },
+      ({ (w.noteRequest r).recover.addTokens r.limit with lastAcquireTime := r.rt } : TBW).expectMore) := by
+    unfold TBW.setLimit
+    simp only [herr, ha, if_true]
+  refine ⟨_, _, h, ?_, ?_⟩
+  · simp [TBW.addTokens, TBW.recover, hu]
+  · simp [TBW.addTokens, TBW.recover, hu, hin]
+
+/-! ## 5. readiness hysteresis -/
+
+/-- the heartbeat status after a history (latest first), from a missing status -/
+def hbFold : List (Bool × Int) → Option HB
+  | [] => none
+  | (ok, now) :: rest => some (hbStep ((hbFold rest).getD {}) ok now)
+
+theorem hbFold_inv : ∀ h, HBInv (hbFold h) h
+  | [] => rfl
+  | (ok, now) :: rest => hbStep_inv (hbFold_inv rest) ok now
+
+/-- `setLeaderStatus` computes exactly the declarative readiness `specReady` of the heartbeat history -/
+theorem c09_ready_spec (h : List (Bool × Int)) :
+    (match hbFold h with | some x => x.ready | none => false) = specReady h := by
+  have := hbFold_inv h
+  cases hf : hbFold h with
+  | none => rw [hf] at this; simp only [HBInv] at this; rw [this]; rfl
+  | some x => rw [hf] at this; exact this.2.1
+
+/-- up on the first success -/
+theorem c09_ready_up (t : Int) (rest : List (Bool × Int)) : specReady ((true, t) :: rest) = true := rfl
+
+/-- down only after MORE than `ServerHeartBeatTimeout` of consecutive failure: if a failed heartbeat at `now` turns a
+    ready status not ready, the current run of failed heartbeats started at some `t0` with `now > t0 + timeout` -/
+theorem c09_ready_down_only_after_timeout (now : Int) (rest : List (Bool × Int)) (hup : specReady rest = true)
+    (hdown : specReady ((false, now) :: rest) = false) :
+    ∃ t0, failRunStart ((false, now) :: rest) = some t0 ∧ now > t0 + serverHeartBeatTimeout := by
+  rw [specReady_false, hup] at hdown
+  refine ⟨(failRunStart rest).getD now, failRunStart_false now rest, ?_⟩
+  simpa using hdown
+
+/-- … and it does go down then, and stays up before -/
+theorem c09_ready_down_iff (now : Int) (rest : List (Bool × Int)) (hup : specReady rest = true) :
+    specReady ((false, now) :: rest) = false ↔ now > (failRunStart rest).getD now + serverHeartBeatTimeout := by
+  rw [specReady_false, hup]; simp
+
+/-- `failRunStart` is the time of the oldest heartbeat of the maximal run of failures at the head of the history:
+    every heartbeat since then failed -/
+theorem failRun_all_failed : ∀ (h : List (Bool × Int)) (t0 : Int), failRunStart h = some t0 →
+    ∃ run rest, h = run ++ rest ∧ run ≠ [] ∧ (∀ x ∈ run, x.1 = false) ∧ (run.getLast?.map (·.2)) = some t0 ∧
+      (∀ x, rest.head? = some x → x.1 = true)
+  | [], t0, h => by simp [failRunStart] at h
+  | (true, t) :: rest, t0, h => by simp [failRunStart] at h
+  | (false, t) :: rest, t0, h => by
+    rw [failRunStart_false] at h
+    cases hr : failRunStart rest with
+    | some t1 =>
+      obtain ⟨run, rest', e1, e2, e3, e4, e5⟩ := failRun_all_failed rest t1 hr
+      rw [hr] at h
+      simp only [Option.getD_some, Option.some.injEq] at h
+      subst h
+      refine ⟨(false, t) :: run, rest', by rw [e1]; rfl, by simp, ?_, ?_, e5⟩
+      · intro x hx
+        rcases List.mem_cons.1 hx with rfl | hx
+        · rfl
+        · exact e3 x hx
+      · cases run with
+        | nil => exact (e2 rfl).elim
+        | cons a as => simpa [List.getLast?_cons_cons] using e4
+    | none =>
+      rw [hr] at h
+      simp only [Option.getD_none, Option.some.injEq] at h
+      subst h
+      refine ⟨[(false, t)], rest, rfl, by simp, by simp, rfl, ?_⟩
+      intro x hx
+      cases rest with
+      | nil => simp at hx
+      | cons y ys =>
+        simp only [List.head?_cons, Option.some.injEq] at hx
+        subst hx
+        obtain ⟨ys1, ys2⟩ := y
+        cases ys1 with
+        | true => rfl
+        | false => rw [failRunStart_false] at hr; cases hr
+
+/-! ## non-vacuity: the hypotheses are satisfiable by concrete, non-trivial runs; the judge is not trivially true -/
+
+/-- max-in-flight 10 / global 100, global-count strategy -/
+def exSchema : Schema := { strategy := .count, mi := some 10, gmi := some 100 }
+def exCfg : Cfg := { rateLimiter := .remote, hasCS := true }
+
+/-- configure, learn the shard count, first heartbeat, reconcile, a granted limit far above the global limit, a
+    negative refusal, a server error with 300 observed in flight, a stale reply, recovery, failed heartbeats for longer than the time-out -/
+def exOps : List Op :=
+  [ .schema exSchema, .shards 1, .hb true 0 false, .reconcileCount,
+    .setLimit { accept := true, limit := 5000, rt := 10 },
+    .setLimit { accept := false, limit := -300, rt := 11 },
+    .meter { maxInflight := 300, rateNum := 0, rateDen := 1 },
+    .setLimit { err := .other, rt := 12 },
+    .setLimit { accept := true, limit := 7, rt := 5 },
+    .setLimit { accept := true, limit := 7, rt := 13 },
+    .hb false 1 false, .hb false (serverHeartBeatTimeout + 2) false ]
+
+theorem exOps_allowed : Allowed .mi exOps := by
+  intro op hop
+  simp only [exOps, List.mem_cons, List.not_mem_nil, or_false] at hop
+  rcases hop with rfl | rfl | rfl | rfl | rfl | rfl | rfl | rfl | rfl | rfl | rfl | rfl <;> simp [exSchema, validSchema, guessType, maxInt32]
+
+/-- the run hands out: local (not ready), local, remote with the reserve 2, …, the clamp 100, 0, the fallback 100 with
+    the outage flag, unchanged by the stale reply, 7 after recovery, then local again once the heartbeats time out -/
+example : (run exCfg exOps).1.map (fun o => (o.choice, o.lim, o.unavail)) =
+    [ (.loc, some (.mi 10), false), (.loc, some (.mi 10), false), (.loc, some (.mi 10), false),
+      (.remote, some (.mi 2), false), (.remote, some (.mi 100), false), (.remote, some (.mi 0), false),
+      (.remote, some (.mi 0), false), (.remote, some (.mi 100), true), (.remote, some (.mi 100), true),
+      (.remote, some (.mi 7), false), (.remote, some (.mi 7), false), (.loc, some (.mi 10), false) ] := by decide
+
+example : allGood (judgeAll exCfg exOps (run exCfg exOps).1) = true := (c09_judge .mi exCfg exOps exOps_allowed).2.2
+
+/-- replace the limiter in the `k`-th observation -/
+def tamper (k : Nat) (l : Lim) (obs : List Obs) : List Obs :=
+  obs.mapIdx fun i o => if i = k then { o with lim := some l, rlim := some l } else o
+
+/-- the judge is not trivially true: it rejects what the pristine code did — the granted 5000 applied unclamped,
+    `uint32(-300)`, an unbounded error fallback (300 in flight), a stale reply applied, and a wrong-typed limiter -/
+example : (judgeAll exCfg exOps (tamper 4 (.mi 5000) (run exCfg exOps).1))[4]? = some ["c09.cap-exceeds-global", "c09.recover-not-applied"] := by decide
+example : allGood (judgeAll exCfg exOps (tamper 5 (.mi 4294966996) (run exCfg exOps).1)) = false := by decide
+example : (judgeAll exCfg exOps (tamper 7 (.mi 300) (run exCfg exOps).1))[7]? = some ["c09.cap-exceeds-global", "c09.error-fallback"] := by decide
+example : (judgeAll exCfg exOps (tamper 8 (.mi 7) (run exCfg exOps).1))[8]? = some ["c09.stale-reply-applied"] := by decide
+example : (judgeAll exCfg exOps (tamper 3 (.tb 1000000 1000000) (run exCfg exOps).1))[3]? = some ["c09.answer-type-mismatch"] := by decide
+example : (judgeAll exCfg exOps (tamper 3 (.exempt 0) (run exCfg exOps).1))[3]? = some ["c09.answer-type-mismatch"] := by decide
+
+/-- … and handing out the remote limiter while the heartbeats have timed out -/
+example : (judgeAll exCfg exOps ((run exCfg exOps).1.mapIdx fun i o => if i = 11 then { o with choice := .remote } else o))[11]?
+    = some ["c09.fallback-choice", "c09.fallback-choice"] := by decide
+
+/-- token bucket, allocate strategy: answers −5/3, 5000/100000 and 0/0 are applied as (0,3), (100,200), (0,0) -/
+def exTB : Schema := { strategy := .alloc, tb := some ⟨10, 20⟩, gtb := some ⟨100, 200⟩ }
+def exOpsTB : List Op :=
+  [ .schema exTB, .shards 2, .hb true 5 false,
+    .answer true { strategy := .alloc, tb := some ⟨-5, 3⟩ },
+    .answer true { strategy := .alloc, tb := some ⟨5000, 100000⟩ },
+    .answer true { strategy := .alloc, mi := some 1000000 },
+    .answer true { strategy := .alloc },
+    .answer true { strategy := .alloc, tb := some ⟨0, 0⟩ } ]
+
+theorem exOpsTB_allowed : Allowed .tb exOpsTB := by
+  intro op hop
+  simp only [exOpsTB, List.mem_cons, List.not_mem_nil, or_false] at hop
+  rcases hop with rfl | rfl | rfl | rfl | rfl | rfl | rfl | rfl <;> simp [exTB, validSchema, guessType, maxInt32]
+
+example : (run exCfg exOpsTB).1.map (fun o => (o.choice, o.lim)) =
+    [ (.loc, some (.tb 10 20)), (.loc, some (.tb 10 20)), (.loc, some (.tb 10 20)),
+      (.remote, some (.tb 0 3)), (.remote, some (.tb 100 200)), (.remote, some (.tb 100 200)),
+      (.remote, some (.tb 100 200)), (.remote, some (.tb 0 0)) ] := by decide
+
+/-- the heartbeat hypotheses of the hysteresis theorems are satisfiable (whatever the regenerated time-out is): up on a
+    success, still up after exactly the time-out of consecutive failure, down one nanosecond later -/
+example : specReady [(false, serverHeartBeatTimeout), (false, 1), (false, 0), (true, 0)] = true := by decide
+example : specReady [(false, serverHeartBeatTimeout + 1), (false, 1), (false, 0), (true, 0)] = false := by decide
+example : failRunStart [(false, serverHeartBeatTimeout + 1), (false, 1), (false, 0), (true, 0)] = some 0 := by decide
 
 end KG.Props.C09
